@@ -223,6 +223,110 @@ class RecordingLogger:
         self._rec(f"log{level}", message, args)
 
 
+
+def real_logger_class(world: "WorldBase", engine: str, statsd: bool) -> Any:
+    """scenario["logger"] = "real" | "statsd": hypercorn's OWN logger classes record, not a stand-in.
+
+    The shipped `hypercorn.logging.Logger` (or the worker's `StatsdLogger`, which `config.statsd_host` selects through
+    `set_statsd_logger_class` exactly as `asyncio/run.py` / `trio/run.py` do) is instantiated by `config.log`; what it
+    writes goes to two private `logging.Logger` objects handed over as `config.accesslog` / `config.errorlog`
+    (hypercorn uses a Logger instance given there as it is), whose handlers append to `world.access` /
+    `world.logrec` in the same format as RecordingLogger.  An access record therefore exists only if the real
+    `Logger.access` -> `atoms()` -> `AccessLogAtoms` -> `%`-formatting with the configured `access_log_format` went
+    through.  UDP is owned: asyncio's `create_datagram_endpoint` is VLoop's (one yield, fake transport), the trio
+    logger's socket is replaced by one whose `sendto` is a checkpoint; datagrams are kept in `world.statsd`.
+    """
+    import logging as _logging
+
+    from hypercorn.logging import Logger as _RealLogger
+
+    if statsd:
+        if engine == "trio":
+            from hypercorn.trio.statsd import StatsdLogger as _Base
+        else:
+            from hypercorn.asyncio.statsd import StatsdLogger as _Base
+    else:
+        _Base = _RealLogger
+    world.statsd = []
+
+    class _AccessHandler(_logging.Handler):
+        def emit(self, record: Any) -> None:
+            if world.finished:
+                return
+            record.getMessage()  # the configured format applied to the atoms: raises exactly where hypercorn's handler would
+            atoms = record.args if isinstance(record.args, dict) else {}
+            request = getattr(atoms, "_verif_request", None)
+            status_s = atoms.get("s")
+            status = int(status_s) if isinstance(status_s, str) and status_s.isdigit() else None
+            if request is None:
+                world.access.append((world.now(), id(atoms), None, atoms.get("U"), status, {}))
+            else:
+                world.access.append((world.now(), id(request), request.get("type"), request.get("path"), status, request))
+
+    class _ErrorHandler(_logging.Handler):
+        def emit(self, record: Any) -> None:
+            if world.finished:
+                return
+            exc = record.exc_info[1] if record.exc_info else None
+            level = "exception" if exc is not None and record.levelno == _logging.ERROR else record.levelname.lower()
+            world.logrec.append((world.now(), level, str(record.msg), type(exc).__name__ if exc is not None else None))
+
+    class _FakeUDP:
+        async def sendto(self, message: bytes, address: Any) -> None:
+            import trio
+
+            await trio.lowlevel.checkpoint()
+            if not world.finished:
+                world.statsd.append(bytes(message))
+
+        def close(self) -> None:
+            pass
+
+    class _Logger(_Base):  # type: ignore[misc,valid-type]
+        def __init__(self, config: Any) -> None:
+            super().__init__(config)
+            if statsd and engine == "trio":
+                self.socket.close()
+                self.socket = _FakeUDP()
+
+        def atoms(self, request: Any, response: Any, request_time: float) -> Any:
+            a = super().atoms(request, response, request_time)
+            try:
+                a._verif_request = request
+            except Exception:
+                pass
+            return a
+
+    access_logger = _logging.Logger("verif.access")
+    access_logger.addHandler(_AccessHandler())
+    error_logger = _logging.Logger("verif.error")
+    error_logger.addHandler(_ErrorHandler())
+    _Logger._verif_loggers = (access_logger, error_logger)
+    return _Logger
+
+
+def install_logger(world: "WorldBase", cfg: Any, engine: str) -> None:
+    kind = world.scenario.get("logger")
+    if kind in ("real", "statsd"):
+        cls = real_logger_class(world, engine, kind == "statsd")
+        cfg.accesslog, cfg.errorlog = cls._verif_loggers
+        if kind == "statsd":
+            from hypercorn.logging import Logger as _RealLogger
+
+            cfg.logger_class = _RealLogger
+            cfg.statsd_host = "127.0.0.1:8125"
+            cfg.set_statsd_logger_class(cls)  # the call asyncio/run.py and trio/run.py make before worker_serve
+        else:
+            cfg.logger_class = cls
+        return
+
+    class _Logger(world.scenario.get("logger_base") or RecordingLogger):  # type: ignore[misc]
+        pass
+
+    _Logger.world = world
+    cfg.logger_class = _Logger
+
+
 # ---------------------------------------------------------------------------------------------
 # scripted applications
 
